@@ -139,13 +139,24 @@ def global_restore(I, snap):
                     obj.items[:] = saved
         else:
             _, prefix, ns, names, saved = rec
+            from pyvc.objects import ModuleV
+
             now = {k: id(deref(v)) for k, v in ns.items()}
             if now != names:
+                real = False
                 for k in set(now) | set(names):
                     if now.get(k) != names.get(k):
+                        if k not in names and isinstance(deref(ns[k]), ModuleV):
+                            # a submodule loaded on this path was bound in its package:
+                            # module loading, not program state (kept)
+                            continue
+                        real = True
                         changed.append(prefix + "." + str(k))
-                ns.clear()
-                ns.update(saved)
+                if real:
+                    keep = {k: v for k, v in ns.items() if k not in names and isinstance(deref(v), ModuleV)}
+                    ns.clear()
+                    ns.update(saved)
+                    ns.update(keep)
     return sorted(set(changed))
 
 
